@@ -382,7 +382,10 @@ def run(ctx):
             else:
                 Bn = np.linalg.norm(B, axis=0)
                 rr = np.linalg.norm(A.astype(complex) @ x - B, axis=0) / np.where(Bn == 0, 1, Bn)
-                if np.any(rr > 1e-3):
+                # attainable in single precision: eps32 * ||A|| (||x|| + ||x0||) / ||b||, times 1e3
+                xn = np.linalg.norm(x, axis=0) + (0 if X0 is None else np.linalg.norm(X0, axis=0))
+                att32 = 1e3 * 1.2e-7 * float(np.linalg.norm(A.astype(complex), 2)) * xn / np.where(Bn == 0, 1, Bn)
+                if np.any(rr > 1e-3 + att32):
                     badl.append("relative residual %s in %s" % (rr.tolist(), np.dtype(dt).name))
         except Exception as e:  # noqa
             badl = ["raised %s: %s" % (type(e).__name__, str(e)[:100])]
